@@ -78,6 +78,8 @@ package agreement
 //      back until the checkpoint event (second safeguard); not property-breaking on its own
 //   Mb' = Mb + the two prioritize calls swapped (vote queue ahead of the checkpoint) DETECTED (A and B)
 //   Mc persistence.go asyncPersistenceLoop.loop: checkpointEvent sent before persist() DETECTED (A and B)
+//   seeded C02-B: checkpointAction.do hands the persist error over with a non-blocking send    DETECTED by H4 only
+//      (C02:released-before-persisted: the soft vote leaves with nothing on disk); H3 alone cannot see it.
 
 import (
 	"context"
@@ -1267,7 +1269,7 @@ func TestVerif_C02_service(t *testing.T) {
 	run.Set("second_level_restarts", restarts2)
 	run.Set("own_votes_checked_released_after_persist", votesChecked)
 	run.Set("crash_db_commits_recorded", commits)
-	n := run.Finish(ve.Coverage{Rule: "3 histories of the real agreement.Service (round 1, periods 0-1; one with an injected crash-DB commit failure) x every prefix of the recorded commit/vote sequence x 3 tempting continuations (restart on the crash-DB copy); oracle A (released => persisted) on every own vote of step >= soft", Exhaustive: true})
+	n := run.Finish(ve.Coverage{Rule: "4 histories of the real agreement.Service (round 1, periods 0-1; two with an injected crash-DB commit failure, one of them with the failed checkpoint processed before the pseudonode waits for it) x every prefix of the recorded commit/vote sequence x 3 tempting continuations (restart on the crash-DB copy); oracle A (released => persisted) on every own vote of step >= soft", Exhaustive: true})
 	if n > 0 {
 		t.Fatalf("%d violation(s)", n)
 	}
